@@ -393,6 +393,13 @@ var c9outsP = []string{"ok", "fail", "silent", "gto", "cancel", "cancelrun", "ba
 var c9outsC = []string{"ok", "fail", "gto", "cancel", "cancelrun", "readyerr"}
 
 func genC09(g *G) {
+	// retried process objects (real signing processes; FROST needs 10 s per run: thorough tier, started ahead)
+	if g.Thorough() {
+		c10prefetch("rerun", c9rerunRun, "fsigning", "2")
+	}
+	for _, n := range []string{"1", "2", "3"} {
+		g.Emit("rerun", "esigning", n)
+	}
 	routs := []string{"ok", "fail", "cancel"}
 	spec := func(sids []string) string {
 		xs := []string{}
@@ -471,6 +478,10 @@ func genC09(g *G) {
 	g.Emit("sess", "a:p:1:gtorun,a:c:2:ok")
 	if g.Thorough() {
 		g.Emit("sess", "a:c:2:gtorun,a:p:1:ok")
+	}
+	if g.Thorough() {
+		g.Emit("rerun", "fsigning", "2")
+		g.Emit("rerun", "esigning", "5")
 	}
 	// random sequences of sessions over two ids in any order
 	for i := 0; i < g.Count(40, 1500); i++ {
